@@ -35,6 +35,16 @@ using std::vector;
 
 namespace Tins {
 
+#ifdef TINS_VERIF_HOOKS
+namespace Internals {
+// Verification hook (guard TINS_VERIF_HOOKS): called with (pdu type, offset) when a layer's 
+// write_serialization modified a byte of the region that belongs to its inner layers 
+// (offset -2: buffer smaller than header + trailer, -3: header size changed while writing)
+void (*verif_region_hook)(int, long) = 0;
+} // Internals
+#endif // TINS_VERIF_HOOKS
+
+
 PDU::metadata::metadata() 
 : header_size(0), current_pdu_type(PDU::UNKNOWN), next_pdu_type(PDU::UNKNOWN) {
 
@@ -150,7 +160,33 @@ void PDU::serialize(uint8_t* buffer, uint32_t total_sz) {
     if (inner_pdu_) {
         inner_pdu_->serialize(buffer + header_size(), total_sz - sz);
     }
+    #ifdef TINS_VERIF_HOOKS
+    // Verification hook: the bytes produced by the inner layers must reach the output unmodified
+    vector<uint8_t> verif_inner_copy;
+    const uint32_t verif_header_size = header_size();
+    if (Internals::verif_region_hook && total_sz >= sz) {
+        verif_inner_copy.assign(buffer + verif_header_size, buffer + verif_header_size + (total_sz - sz));
+    }
+    #endif // TINS_VERIF_HOOKS
     write_serialization(buffer, total_sz);
+    #ifdef TINS_VERIF_HOOKS
+    if (Internals::verif_region_hook) {
+        if (total_sz < sz) {
+            Internals::verif_region_hook(static_cast<int>(pdu_type()), -2);
+        }
+        else if (header_size() != verif_header_size) {
+            Internals::verif_region_hook(static_cast<int>(pdu_type()), -3);
+        }
+        else {
+            for (size_t i = 0; i < verif_inner_copy.size(); ++i) {
+                if (buffer[verif_header_size + i] != verif_inner_copy[i]) {
+                    Internals::verif_region_hook(static_cast<int>(pdu_type()), static_cast<long>(i));
+                    break;
+                }
+            }
+        }
+    }
+    #endif // TINS_VERIF_HOOKS
 }
 
 void PDU::parent_pdu(PDU* parent) {
